@@ -344,6 +344,14 @@ def run(ctx):
                 return AV("unk", sym=f"self.{node.attr}", tags=frozenset({f"self.{node.attr}"}))
             return None
 
+        def unpack(self, it, st, av, n):
+            # sock, verified = <wrap result>: the fields of the NamedTuple, same provenance as attribute access
+            if av.kind == "obj" and av.val == "wrapped":
+                flds = it.m.returned_namedtuple_fields(WRAP) or []
+                if len(flds) == n:
+                    return [AV("unk", sym=f"wrapped.{f_}", tags=frozenset({f"wrapped.{f_}"}), truth=None if f_ == "is_verified" else True, none=False) for f_ in flds]
+            return None
+
         def call(self, it, st, node, recv, pos, kw):
             t = ast.unparse(node.func)
             if t == "_ssl_wrap_socket_and_match_hostname":
@@ -498,6 +506,27 @@ def run(ctx):
                                         for i_, t_ in enumerate(a_.targets[0].elts):
                                             if isinstance(t_, ast.Name) and t_.id == e.id and i_ < len(flds) and flds[i_] == "is_verified":
                                                 return [("result", e)]
+                                # `a, b = self._helper(...)`: element i of what the private helper returns
+                                for a_ in astq.walk_fn(f.node):
+                                    if isinstance(a_, ast.Assign) and isinstance(a_.targets[0], ast.Tuple) and isinstance(a_.value, ast.Call) \
+                                            and isinstance(a_.value.func, ast.Attribute) and isinstance(a_.value.func.value, ast.Name) and a_.value.func.value.id == "self" and f.cls:
+                                        hf = m.find_method(f.clsq, a_.value.func.attr)
+                                        idx_ = [i_ for i_, t_ in enumerate(a_.targets[0].elts) if isinstance(t_, ast.Name) and t_.id == e.id]
+                                        if hf is None or not idx_ or not hf.qual.startswith("urllib3."):
+                                            continue
+                                        flds = m.returned_namedtuple_fields(WRAP) or []
+                                        kinds_h = []
+                                        for rt in [n_ for n_ in astq.walk_fn(hf.node) if isinstance(n_, ast.Return) and n_.value is not None]:
+                                            rv = rt.value
+                                            if isinstance(rv, ast.Tuple) and idx_[0] < len(rv.elts):
+                                                kinds_h.append("result" if (isinstance(rv.elts[idx_[0]], ast.Attribute) and rv.elts[idx_[0]].attr == "is_verified") else "other")
+                                            else:
+                                                # the helper returns the wrap result itself (a NamedTuple): element i is its i-th field
+                                                srcs_h = [rv] + (list(astq.sources_of(hf.node, rv)) if isinstance(rv, ast.Name) else [])
+                                                from_wrap = any(isinstance(s_, ast.Call) and astq.call_text(s_) == "_ssl_wrap_socket_and_match_hostname" for s_ in srcs_h)
+                                                kinds_h.append("result" if from_wrap and idx_[0] < len(flds) and flds[idx_[0]] == "is_verified" else "other")
+                                        if kinds_h:
+                                            return [(k_, e) for k_ in kinds_h]
                                 srcs = astq.assigned_values(f.node, e.id)
                                 out = []
                                 for x in srcs:
